@@ -296,6 +296,29 @@ class C10(core.Check):
                         hist.append(["clear"])
                 case["history"] = hist
             cases.append(case)
+        # three surfaces on one edge, reached by different routes (project_edge from either end, project_side with edges of
+        # one of the two sides through the edge, add_edge / add_side_edge with a Project): refused at the third *different*
+        # one, accepted when a label repeats or the datum was replaced in between
+        for _ in range(14 if tier == "quick" else 200):
+            a, b = sorted(rng.choice(BM_EDGES))
+            through = [sd for sd, q in BM_SIDE.items() if {a, b} <= q]
+            labs = rng.sample(["g1", "g2", "g3"], 3)
+            if rng.random() < 0.35:
+                labs[rng.randrange(1, 3)] = labs[0]  # only two different surfaces
+            calls = []
+            for lab_ in labs:
+                r = rng.random()
+                if r < 0.5:
+                    calls.append(["pedge", *rng.choice([(a, b), (b, a)]), lab_])
+                else:
+                    calls.append(["pside", rng.choice(through), lab_, 1, int(rng.random() < 0.3)])
+                if rng.random() < 0.15:
+                    calls.append(["patch", rng.choice(sides[:6]), "pa"])
+            if rng.random() < 0.2:
+                # the datum is replaced before the third label arrives
+                slot = next((f + str(i) for f in "bts" for i in range(4) if set(_slot_pair(f + str(i))) == {a, b}))
+                calls.insert(len(calls) - 1, ["sideedge", int(slot[1]), "g1"] if slot[0] == "s" else ["faceedge", {"b": "bottom", "t": "top"}[slot[0]], int(slot[1]), "g1"])
+            cases.append({"kind": "addr", "base": rng.choice(["loft", "box", "revolve"]), "calls": calls})
         cases += self._geo_cases(rng, n // 3 if tier == "quick" else n // 4)
         if tier == "thorough":
             for base in ("box", "extrude", "revolve", "wedge"):
@@ -1121,7 +1144,7 @@ class C10(core.Check):
         if case["kind"] == "geo":
             return "geo:" + ("jittered" if case["jitter"] else "affine") + (":inside-out" if case["det"].startswith("-") else "")
         if case["kind"] in ("box", "extrude", "connector", "revolvegeo", "wedgegeo"):
-            return case["kind"] + (":scalar-rational-normal" if case.get("len") else "")
+            return case["kind"] + (":scalar-rational-normal" if case["kind"] == "extrude" and case.get("len") else "")
         if "reject" in impl:
             return "addr:rejected:" + impl["reject"]
         b = case.get("base", "loft")
